@@ -113,7 +113,10 @@ func expMarker(t *rapid.T, exp int) string {
 	return fmt.Sprintf("%s%s%s%d", m, sign, zeros, exp)
 }
 
-var detourTexts = []string{"0.1", "0.2", "0.3", "9007199254740993", "9007199254740992", "9223372036854775808", "9223372036854775807", "10000000000000000000001", "1", "3", "7", "0.7", "1.1", "2.2", "3.3", "100", "1e22", "0.000001", "123456789.123456789", "25E-1", "1999E-3", "5E-1", "15E-1", "1E0", "1E+2", "12E-1", "-25E-1", "1.5E0", "0E0", "1e-0", "25e-01"}
+var detourTexts = []string{"0.1", "0.2", "0.3", "9007199254740993", "9007199254740992", "9223372036854775808", "9223372036854775807", "10000000000000000000001", "1", "3", "7", "0.7", "1.1", "2.2", "3.3", "100", "1e22", "0.000001", "123456789.123456789", "25E-1", "1999E-3", "5E-1", "15E-1", "1E0", "1E+2", "12E-1", "-25E-1", "1.5E0", "0E0", "1e-0", "25e-01",
+	// the limits of the integer kinds with a fraction (an int64 fast path that truncates first goes wrong here)
+	"-9223372036854775808.5", "-9223372036854775807.5", "9223372036854775807.5", "9223372036854775808.5", "-9223372036854775809.5", "18446744073709551615.5", "-2147483648.5", "2147483647.5", "4294967295.5",
+	"9007199254740992.5", "-9007199254740992.5", "-9223372036854775808.0000000001", "9223372036854775807.9999999999", "-0.5", "0.5", "-1.5", "-0.0000000000000000000000000000000001", "127.5", "-128.5", "255.5", "32767.5", "-32768.5", "65535.5"}
 
 // log10Floor returns floor(log10(|x|)) for x != 0.
 func log10Floor(x *big.Rat) int {
